@@ -510,10 +510,26 @@ def fill_loops(env, T, b, ctx):
                     a0 = unref(a0[2][0])
                 if a0[0] == "agg" and a0[1].endswith("Range::Range") and len(a0[2]) == 2 and unref(a0[2][0]) == ("int", 0):
                     rng.append((bi, t, unref(a0[2][1])))
-        if len(inner) != 1 or len(pushes) != 1 or len(rng) != 1:
+        if len(inner) != 1 or len(pushes) != 1 or len(rng) > 1:
             continue
-        (ib, it), (pb, pt), (rb, rt_, n_term) = inner[0], pushes[0], rng[0]
+        (ib, it), (pb, pt) = inner[0], pushes[0]
         buf = unref(ev.operand(ctx, pt["args"][0]))
+        guard_n = None
+        if not rng:
+            # `while buf.len() < n { .. }`: the loop is left by its guard exactly when n <= buf.len()
+            lnb = ("call", "len", (("ref", buf),))
+            for x in L:
+                for y in b.succ(x):
+                    if y in L:
+                        continue
+                    for f in block_facts(ev, ctx, y):
+                        if f[0] == "le" and len(f) == 3 and unref_len(f[2]) == lnb:
+                            guard_n = unref(f[1])
+            if guard_n is None:
+                continue
+            rb, rt_, n_term = None, None, guard_n
+        else:
+            (rb, rt_, n_term) = rng[0]
         # the buffer starts empty: `Vec::new()` / `Vec::with_capacity(..)`, and is otherwise only pushed to
         opts = buf[1] if buf[0] == "phi" else (buf,)
         fresh = [o for o in opts if o[0] == "ret" and o[1] in ("std::vec::Vec::new", "std::vec::Vec::with_capacity")]
@@ -532,17 +548,21 @@ def fill_loops(env, T, b, ctx):
         if any(x != pb and b.paths_avoiding(x, {h}, {pb}) for x in first_some):
             continue
         # nothing else in the loop touches the buffer
-        if any(bi != pb and any(unref(ev.operand(ctx, a)) == buf for a in t["args"]) for bi, t, c in b.calls() if bi in L):
+        READ_ONLY = ("std::vec::Vec::len", "std::vec::Vec::is_empty", "std::vec::Vec::capacity", "std::slice::len")
+        if any(bi != pb and c.key not in READ_ONLY and any(unref(ev.operand(ctx, a)) == buf for a in t["args"])
+               for bi, t, c in b.calls() if bi in L and not c.indirect):
             continue
         # exits: the round counter is used up, or the wrapped iterator returned None
-        rres = unref(ev.operand(ctx, {"k": "copy", "place": rt_["dest"]}))
+        rres = unref(ev.operand(ctx, {"k": "copy", "place": rt_["dest"]})) if rt_ is not None else None
         okx = True
         for x in L:
             for y in b.succ(x):
                 if y in L or _only_panics_s(b, y):
                     continue
                 fs = block_facts(ev, ctx, y)
-                if not any(f[0] == "is_some" and f[2] is False and f[1] in (unref(ires), rres) for f in fs):
+                if not any(f[0] == "is_some" and f[2] is False and f[1] in (unref(ires), rres) for f in fs) and not (
+                        guard_n is not None and any(f[0] == "le" and len(f) == 3 and unref(f[1]) == guard_n
+                                                    and unref_len(f[2]) == ("call", "len", (("ref", buf),)) for f in fs)):
                     okx = False
         if okx:
             out.append((buf, n_term, L))
@@ -561,6 +581,18 @@ def _only_panics_s(b, s):
             return False
         st.extend(b.succ(x))
     return True
+
+
+def fills_with_callees(env, T, b, ctx):
+    """fill loops of body b and of the crate-local helpers it calls (evaluated in the caller's terms)"""
+    out = list(fill_loops(env, T, b, ctx))
+    for bi, t, c in b.calls():
+        if b.blocks[bi]["cleanup"]:
+            continue
+        nctx = env.ev.callee_ctx(ctx, bi)
+        if nctx is not None:
+            out.extend(fill_loops(env, T, nctx.body, nctx))
+    return out
 
 
 def _fill_evidence(fills, f, neg=False):
@@ -625,8 +657,8 @@ def rule_done(env, shared):
                 why = "guard dropped while panicking"
             elif any(f[0] == "is_some" and f[2] is False and "Iterator::next" in fmt(f[1]) for f in fs):
                 why = "the wrapped iterator returned None"
-            elif any(_fill_evidence(fill_loops(env, T, e.info["chain"][-1][0] if (trivial and e.info["chain"]) else sb,
-                                               e.info["chain"][-1][2] if (trivial and e.info["chain"]) else e.ctx), f)
+            elif any(_fill_evidence(fills_with_callees(env, T, e.info["chain"][-1][0] if (trivial and e.info["chain"]) else sb,
+                                                       e.info["chain"][-1][2] if (trivial and e.info["chain"]) else e.ctx), f)
                      for f in fs):
                 why = "the fill loop pushed fewer elements than it had rounds: it was left on None"
             elif any(f[0] in ("lt", "eq", "ne") and len(f) == 3 and "Iterator::collect" in fmt(f[1]) + fmt(f[2])
@@ -716,6 +748,32 @@ def rule_done(env, shared):
                     continue
                 if b.paths_avoiding(s, set(b.exits()), done_blocks | infeasible):
                     bad = True
+            if bad and not b.is_closure and (b.info or {}).get("container") in ("inherent", "free") \
+                    and not (b.info or {}).get("exported"):
+                # a private helper that only fills a buffer: its callers must set the flag whenever the fill loop was left on
+                # None, which they can tell from the length of what it returned
+                from r_ticket import all_callers
+                callers = [(cb, cbb) for (cb, cbb) in all_callers(env, b.def_) if cb.def_ != b.def_]
+                okc = bool(callers)
+                for (cb, cbb) in callers:
+                    csa = F.impl_self_adt(cb) or sa
+                    cctx = env.ctx(cb, csa, T.world)
+                    nctx = ev.callee_ctx(cctx, cbb)
+                    cfills = fill_loops(env, T, b, nctx) if nctx is not None else []
+                    cdone = {e2.info["top_bb"] for e2 in T.direct_events(cb, csa) if e2.kind == "atomic"
+                             and e2.info["op"] == "store" and T.role_of(e2.info["place"])[0] == "done"}
+                    cinf = set()
+                    for x in range(len(cb.blocks)):
+                        if not cb.blocks[x]["cleanup"] and any(_fill_evidence(cfills, f, neg=True) for f in block_facts(ev, cctx, x)):
+                            cinf.add(x)
+                    tgt2 = cb.term(cbb).get("target")
+                    if not cfills or tgt2 is None or cb.paths_avoiding(tgt2, set(cb.exits()), cdone | cinf) or tgt2 in cb.exits():
+                        okc = False
+                if okc:
+                    bad = False
+                    out.append(Ob("DONE-SET", k, "ok", e.loc(), "the helper fills a buffer; every caller sets the end flag whenever "
+                                  "fewer elements than requested came back", True))
+                    continue
             if bad:
                 out.append(Ob("DONE-SET", k, "viol", e.loc(),
                               "after the wrapped iterator returned None, %s can return without setting the end flag: the "
